@@ -353,7 +353,18 @@ func checkC15(c *Ctx) {
 	if wcs := c.Func(SlogPath, "WithCallerSkip"); c.Anchor("R15.1", "zapslog.WithCallerSkip", wcs != nil && len(wcs.Params) == 1) {
 		okS, nSt := false, 0
 		hn := c.Named(SlogPath, "Handler")
-		for _, f := range WithClosures(wcs) {
+		cands := WithClosures(wcs)
+		// the option may be a value of a named type whose apply method does the addition
+		for _, r := range Returns(wcs) {
+			v := RetVals(r)[0]
+			if mi, isMI := v.(*ssa.MakeInterface); isMI {
+				v = mi.X
+			}
+			if m := c.SSA.LookupMethod(v.Type(), c.Pkg(SlogPath).Types, "apply"); m != nil && m.Synthetic == "" && len(m.Blocks) > 0 {
+				cands = append(cands, m)
+			}
+		}
+		for _, f := range cands {
 			if hn == nil {
 				break
 			}
